@@ -35,7 +35,8 @@ def run(env, rep):
         "payload's own type id and data, and Unknown encoded as its data; R2: per message type the encoder's output grammar and "
         "the decoder's typed reads (width, byte order, order, event/limit codes, which field each value lands in) agree with each "
         "other and with the specification row; R3: the size is within [0, 2^31-1] on every Ok path of the SetChunkSize codec in "
-        "both directions.  Not decided: equality over all field values (for AMF0-bodied types this reduces to C04).")
+        "both directions; R4 (= C12 R1-R2 and C04 R3): the AMF0 encoder and decoder that carry the bodies of command and data messages follow the AMF0 "
+        "specification table and agree with each other per value type - a command or data message converts back losslessly only if its values do.  Not decided: equality over all field values (for AMF0-bodied types this reduces to C04).")
     rep.exhaustive = True
     with open(SPEC) as f:
         spec = json.load(f)
@@ -372,3 +373,10 @@ def run(env, rep):
         dh = [d[2] for p in dp for t in p if t[0] == "returns" and t[1].startswith("Ok(") for d in t[2][:1]]
         rep.check("C13.R3", "set_chunk_size:deserialize", bool(dh) and max(dh) <= mx, "size accepted is at most %s" % mx,
                   "set_chunk_size::deserialize accepts a size up to %s (limit %s)" % (dh and max(dh), mx), db.span)
+
+    # ------------------------------------------------------------------ R4 the AMF0 codec under the command / data bodies
+    from ..framework import PrefixReport, wants
+    if wants(rep, "C13.R4"):
+        from . import C12, C04
+        C12.run(env, PrefixReport(rep, "C12.", "C13.R4.", only=("C12.R1", "C12.R2")))
+        C04.run(env, PrefixReport(rep, "C04.", "C13.R4.", only=("C04.R3",)))
